@@ -24,7 +24,7 @@ PROPS = {
     "C08": dict(fams=[walkfam("inbound"), walkfam("mixed", "wake", 160, 3000), tlcfam("MC_Inbound")], design=["MC_Inbound"]),
     "C09": dict(fams=[walkfam("inbound", "wake", 320, 5000), genfam("q2seq", "q2seq", 1, 1), genfam("resume", "resume", 1, 1), tlcfam("MC_Inbound")], design=["MC_Inbound"]),
     "C10": dict(fams=[walkfam("quota", "wake", 320, 5000), walkfam("ops", "wake", 160, 2000), genfam("quota-fill", "quotafill", 1, 1), tlcfam("MC_Ops")], design=["MC_Ops"]),
-    "C11": dict(fams=[genfam("wrap", "wrap", 1, 1), walkfam("ops", "wake", 80, 1000), tlcfam("MC_Ids")], design=["MC_Ids"]),
+    "C11": dict(fams=[genfam("wrap", "wrap", 1, 1), genfam("threads", "threads", 1, 1), walkfam("ops", "wake", 80, 1000), tlcfam("MC_Ids")], design=["MC_Ids"]),
     "C12": dict(fams=[genfam("size", "size", 1, 1), tlcfam("MC_Ops")], design=["MC_Ops"]),
     "C13": dict(fams=[walkfam("life", "wake", 400, 6000), genfam("first", "first", 1, 1), genfam("endings", "endings", 1, 1), tlcfam("MC_Life")], design=["MC_Life"]),
     "C14": dict(fams=[walkfam("life", "wake", 400, 6000), walkfam("mixed", "wake", 160, 3000), genfam("endings", "endings", 1, 1), tlcfam("MC_Life")], design=["MC_Life"]),
@@ -147,6 +147,10 @@ def run_stats(files):
                         cur["faults"] += 1
                 elif k == "reconnect":
                     cur["reconn"] += 1
+                elif k == "twr":
+                    sig += e["t"]
+                    if e["id"]:
+                        cur["idpk"] += 1
                 elif k == "fuzz":
                     cur["garbage"] += 1
                     sig += e["phase"] + e["case"] + e["fault"] + e["o1"] + e["k1"] + e["o2"] + e["hex"]
@@ -227,6 +231,7 @@ def run(prop, tier):
     findings = vlib.load_findings()
     # 1. design model
     dres = design.run(prop, cfg.get("design", []), tier)
+    unbounded = design.apalache_quota() if prop == "C10" else None
     # 2. conformance
     pairs = regress_files(bins, prop, d)
     nreg = len(pairs)
@@ -292,6 +297,8 @@ def run(prop, tier):
         "families": [f["name"] for f in cfg["fams"]],
         "build_modes": list(modes),
     }
+    if unbounded:
+        cov["unbounded_inductive_invariant"] = unbounded
     printed = set()
     for key, v, f in known:
         if f["id"] not in printed:
